@@ -27,6 +27,12 @@ func (s *Store) snapshotRevert(revertTo Snapshot) error {
 			" fileNameCurr: %s", revertToFooter.fileName, fileNameCurr)
 	}
 
+	// The segments may all belong to child collections.
+	fref := revertToFooter.fileRef()
+	if fref == nil || fref.file == nil {
+		return fmt.Errorf("revert footer parts nil")
+	}
+
 	persistOptions := StorePersistOptions{}
 	footer, err := s.revertToSnapshot(revertToFooter, persistOptions)
 	if err != nil {
@@ -40,8 +46,7 @@ func (s *Store) snapshotRevert(revertTo Snapshot) error {
 		footer.PrevFooterOffset = s.footer.filePos
 	}
 
-	err = s.persistFooter(revertToFooter.SegmentLocs[0].mref.fref.file, footer,
-		persistOptions)
+	err = s.persistFooter(fref.file, footer, persistOptions)
 	if err != nil {
 		footer.DecRef()
 		return err
@@ -59,15 +64,6 @@ func (s *Store) snapshotRevert(revertTo Snapshot) error {
 
 func (s *Store) revertToSnapshot(revertToFooter *Footer, options StorePersistOptions) (
 	rv *Footer, err error) {
-	if len(revertToFooter.SegmentLocs) <= 0 {
-		return nil, fmt.Errorf("revert footer slocs <= 0")
-	}
-
-	mref := revertToFooter.SegmentLocs[0].mref
-	if mref == nil || mref.fref == nil || mref.fref.file == nil {
-		return nil, fmt.Errorf("revert footer parts nil")
-	}
-
 	slocs := append(SegmentLocs{}, revertToFooter.SegmentLocs...)
 	slocs.AddRef()
 
